@@ -7,10 +7,14 @@ U(s) == [t |-> "u", s |-> s]
 
 MCPlugins == { <<>>, <<R("a", 1)>>, <<R("a", 1), R("-", 1), R("Z", 1)>>, <<R("-", 1), R("a", 1)>>, <<R("a", 1), R(".", 1)>>,
                <<R("0", 1), R(":", 1), R("a", 1)>>, <<R("a", 1), R(" ", 1), R("a", 1)>>, <<R("U", 1)>>, <<R("a", 1), R("_", 1), R("z", 1)>>,
-               <<R("a", 30)>>, <<R("a", 31)>>, <<R("a", 61)>>, <<R("a", 62)>>, <<R("a", 1), R("/", 1), R("a", 1)>> }
+               <<R("a", 30)>>, <<R("a", 31)>>, <<R("a", 61)>>, <<R("a", 62)>>, <<R("a", 1), R("/", 1), R("a", 1)>>,
+               \* non-ASCII letters are not letters: in the middle, and first (its first byte alone is a Latin-1 letter)
+               <<R("a", 1), R("é", 1), R("a", 1)>>, <<R("é", 1), R("a", 1)>> }
 MCIds     == { <<>>, <<R("0", 1)>>, <<R("a", 1), R("/", 1), R("z", 1)>>, <<R("a", 1), R("/", 1)>>, <<R("/", 1), R("a", 1)>>,
                <<R("0", 4), R(":", 1), R("0", 2)>>, <<R("a", 1), R("=", 1), R("a", 1)>>, <<R("z", 1)>>,
-               <<R("9", 30)>>, <<R("9", 31)>>, <<R("9", 32)>>, <<R("a", 1), R("/", 2), R("a", 1)>>, <<R("a", 1), R("C", 1), R("a", 1)>> }
+               <<R("9", 30)>>, <<R("9", 31)>>, <<R("9", 32)>>, <<R("a", 1), R("/", 2), R("a", 1)>>, <<R("a", 1), R("C", 1), R("a", 1)>>,
+               \* a non-ASCII letter last (its last byte alone is a Latin-1 letter), a non-ASCII digit in the middle
+               <<R("a", 1), R("µ", 1)>>, <<R("a", 1), R("٣", 1), R("a", 1)>> }
 MCDevLists == { <<Q("q1")>>, <<Q("q1"), Q("q2")>>, <<Q("q2"), Q("q1"), Q("q3")>>, <<U("plain")>>, <<Q("q1"), U("empty")>>,
                 <<U("comma")>>, <<Q("q1"), Q("q1")>>, <<U("pad"), Q("q2")>> }
 
